@@ -16,7 +16,8 @@ RULE = ("1-3 unicode memos (unique texts, 1..120 bytes, multi-byte characters sp
         "requested sizes below the minimum), 3 signers; on 40% of the senders a configuration history (.curt / .code / "
         ".size setters in random order, sizes at and around the minimum of each (curt, code) pair) precedes the send; the "
         "receiver has its own independent code/curt/size (often smaller than the grams it receives) which are also changed "
-        "between arrivals; all grams delivered to a real receiving Memoer as a permutation "
+        "between arrivals; the transferable ('D') signer often has a rotated current key pair in both keeps; the receiver is "
+        "a Memoer or an AuthMemoer; all grams delivered to a real receiving Memoer as a permutation "
         "with duplicates, interleaved across memos, sometimes with a gram withheld; serviced after every datagram, "
         "only at the end, once-style, or stage by stage; non-trivial = some memo has >= 2 grams and the delivery is "
         "not the send order, or has a duplicate, or memos are interleaved")
@@ -97,6 +98,18 @@ def directed():
         for rxsets in ([], [[0.4, ["size", 1]], [0.7, ["curt", not curt]]]):
             out.append({"authic": sg is not None, "schedule": "zeroth-first-shuffle", "svc": "all", "seed": k, "rx": rx, "rxsets": rxsets,
                         "memos": [_memo("receiver has its own size %d wörld € " % k * 3, code, curt, size, sg, 1, k)]})
+    # transferable ('D') signer whose current key pair in .keep (sender's and receiver's) is a rotated one, not the
+    # key encoded in its vid; Memoer and AuthMemoer receivers; in order, shuffled with duplicates, zeroth-first
+    for code in ("bAAC", "bAAG"):
+        for curt in (False, True):
+            for rxclass in (None, "auth"):
+                for sched in ("inorder", "zeroth-first-shuffle", "double"):
+                    k += 1
+                    c = {"authic": True, "keep": "rotated", "schedule": sched, "svc": "all" if sched != "double" else "end", "seed": k,
+                         "memos": [_memo("rotated signer %d wörld € " % k * 5, code, curt, _min_size(code, curt) + 30, 2, 1, k)]}
+                    if rxclass:
+                        c["rxclass"] = rxclass
+                    out.append(c)
     # two memos interleaved from different sources, one gram withheld from the second
     out.append({"authic": False, "memos": [_memo("first memo first memo", "bAAA", False, 38, None, 1, 50),
                                            _memo("second memo second memo", "bAAE", True, 40, None, 2, 51)],
@@ -163,6 +176,10 @@ def generate(rng, tier):
         authic = any_signed and all(_final(m)[0] in mc.SIGNED for m in memos) and rng.random() < 0.8
         c = {"authic": authic, "memos": memos, "schedule": sched, "seed": rng.randrange(1 << 30),
              "svc": rng.choice(["end", "end", "all", "all", "once", "split"])}
+        if any(m["signer"] == 2 for m in memos) and rng.random() < 0.6:
+            c["keep"] = "rotated"   # the transferable signer's current key pair (in both keeps) is not the one in its vid
+        if authic and rng.random() < 0.4:
+            c["rxclass"] = "auth"   # receiver is an AuthMemoer
         if rng.random() < 0.6:      # the receiver's own transmit settings, independent of the senders'
             c["rx"] = {"size": rng.choice([1, 33, 38, 40, 64, 125, 170, 200]), "curt": rng.random() < 0.5,
                        "code": rng.choice(mc.ZERO_CODES)}
@@ -202,8 +219,8 @@ def _schedule(case, counts):
 
 # --------------------------------------------------------------------------- implementation
 
-def _sender(memo):
-    keep, vids = mc.keep_and_vids()
+def _sender(memo, keepmode="full"):
+    keep, vids = mc.keep_and_vids(keepmode)
     cls = mc.memoer_class()
 
     class Sender(cls):
@@ -246,7 +263,7 @@ def _ops(case, sent):
 def run_impl(case):
     sent, slog = [], []
     for memo in case["memos"]:
-        tx, vid = _sender(memo)
+        tx, vid = _sender(memo, case.get("keep", "full"))
         try:
             grams = [bytes(g).hex() for g in tx.rend(memo["text"], vid)]
             exc = None
@@ -255,7 +272,7 @@ def run_impl(case):
         slog += tx.slog
         sent.append({"grams": grams, "exc": exc, "size": tx.size, "vid": vid, "code": tx.code, "curt": bool(tx.curt)})
     sched, ops = _ops(case, sent)
-    rx = mc.new_receiver(case["authic"], **case.get("rx", {}))
+    rx = mc.new_receiver(case["authic"], case.get("keep", "full"), case.get("rxclass"), **case.get("rx", {}))
     excs = mc.run_rx_ops(rx, ops)
     obs = mc.observe_rx(rx)
     obs.update({"excs": excs, "sent": sent, "sign": slog, "sched": sched, "ops": ops})
